@@ -253,16 +253,21 @@ Lemma P2B_infinity : P2B infinity = B754_infinity false.
 Proof. rewrite infinity_equiv. apply Prim2B_B2Prim. Qed.
 
 (* pow2 e is the binary64 number 2^e *)
-Lemma pow2_spec e : (-1074 <= e <= 1023)%Z ->
+Lemma pow2_spec e : (-1022 <= e <= 1023)%Z ->
   is_finite (P2B (pow2 e)) = true /\ B2R (P2B (pow2 e)) = p2 e /\ Bsign (P2B (pow2 e)) = false.
 Proof.
-  intros He. unfold pow2. rewrite ldexp_equiv, P2B_one.
-  generalize (Bldexp_correct prec emax _ _ mode_NE Bone e).
-  rewrite Bone_correct, Rmult_1_l.
-  rewrite (round_generic radix2 fx (round_mode mode_NE) (p2 e)) by (apply fmt_p2; lia).
-  rewrite Rlt_bool_true.
-  - rewrite is_finite_Bone, Bsign_Bone. intros (A & B & C). auto.
-  - rewrite Rabs_pos_eq by apply bpow_ge_0. apply bpow_lt. unfold emax. lia.
+  intros He. unfold pow2. set (s := S754_finite false 4503599627370496 (e - 52)).
+  assert (V : SpecFloat.valid_binary prec emax s = true).
+  { unfold s, SpecFloat.valid_binary, SpecFloat.bounded, SpecFloat.canonical_mantissa.
+    change (Z.pos (digits2_pos 4503599627370496)) with 53%Z.
+    apply andb_true_intro. split.
+    - apply Zeq_bool_true. unfold SpecFloat.fexp, SpecFloat.emin, prec, emax. lia.
+    - apply Z.leb_le. unfold prec, emax. lia. }
+  unfold Prim2B. rewrite is_finite_SF2B, B2R_SF2B, Bsign_SF2B, (Prim2SF_SF2Prim s V).
+  split; [reflexivity|]. split; [|reflexivity].
+  unfold s. cbn [SF2R cond_Zopp]. unfold F2R. cbn [Fnum Fexp].
+  change (IZR (Z.pos 4503599627370496)) with (IZR (Zpower radix2 52)). rewrite IZR_Zpower by lia.
+  rewrite <- bpow_plus. f_equal. lia.
 Qed.
 
 Lemma Bleb_abs_fin (X H : BF) : is_finite H = true -> Bleb (Babs X) H = true -> is_finite X = true.
@@ -336,7 +341,7 @@ Proof.
   - exfalso. pose proof (bpow_gt_0 radix2 j). lra.
   - subst s. reflexivity.
 Qed.
-Lemma fscale_inf j : (-1074 <= j <= 1023)%Z -> fscale j infinity = infinity.
+Lemma fscale_inf j : (-1022 <= j <= 1023)%Z -> fscale j infinity = infinity.
 Proof.
   intros Hj. apply Prim2B_inj. unfold fscale. rewrite mul_equiv, P2B_infinity.
   destruct (pow2_spec j Hj) as (F & R & S). exact (Bmult_inf_pos _ j F R S).
